@@ -4,7 +4,7 @@ from vf.common import Harness
 LEVEL = "model_checking"
 TECHNIQUE = "CBMC bounded symbolic execution of libyara/exec.c (yr_execute_code) per opcode, all 64-bit operand values, against a reference semantics written from the manual"
 ASSUMPTIONS = [
-    "program dimension: one opcode per query in the exact byte layout yr_parser_emit* produces; composition of instructions is argued (DESIGN 5.C04), not solved",
+    "program dimension: one opcode per query in the exact byte layout yr_parser_emit* produces (arithmetic/bitwise/compare/boolean opcodes, the 9 string-query opcodes on arbitrary sorted match lists of <= 3 matches, the 12 intN readers on 2-block layouts, ITER_CONDITION/ITER_END, the string operators of sizedstr.c on strings <= 3 bytes); composition of instructions is argued (DESIGN 5.C04), not solved",
     "a defined result equal to the sentinel 0xFFFABADAFABADAFF is indistinguishable from undefined by design and is excluded",
     "yr_get_configuration_uint32 -> constant stack size; yr_modules_unload_all -> counting stub; clock stub",
     "operator precedence/associativity (LALR tables) is outside this technique",
